@@ -220,9 +220,10 @@ class Run:
             for ln, line in enumerate(txt.split('\n'), 1):
                 code = line.split('//')[0]
                 if re.search(r'(?<![A-Za-z_])(assume|admit)\s*\(', code) and 'assume_specification' not in code:
-                    if '/*@assumed closure-glue*/' in line:
-                        # the one whitelisted kind: the effect of a T15-converted closure on the state it captured by &mut
-                        # (invisible to Verus), stated at the exits of the converted function and reported here
+                    if '/*@assumed closure-glue*/' in line or '/*@assumed monotonic-clock*/' in line:
+                        # the two whitelisted kinds, each reported: (1) the effect of a T15-converted closure on the state it
+                        # captured by &mut (invisible to Verus), stated at the exits of the converted function; (2) the reading of
+                        # the monotone clock in HalfConnection::step (Instant::now() is not behind earlier readings, < 2^62 ms)
                         out.setdefault('site_assumptions', []).append(f'{rel}:{ln}: ' + code.strip()[:160])
                     else:
                         out['assume_or_admit'].append(f'{rel}:{ln}')
